@@ -243,6 +243,15 @@ static void __attribute__((noinline)) churn(int n) {
 }
 
 static var gc_rootobj;               /* a root-registered object kept in static storage only */
+/* garbage that owns itself: two Boxes referring to each other; with a collector it is reclaimed at some point (each object
+** finalised once), without one it is never freed - no error path either way */
+static uint64_t __attribute__((noinline)) gc_ring(int i) {
+  var a = new(Box, new(Int, $I(i)));
+  var b = new(Box, new(Int, $I(i * 2)));
+  uint64_t r = (uint64_t)c_int(deref(a)) + (uint64_t)c_int(deref(b));
+  ref(a, b); ref(b, a);
+  return r + (deref(deref(a)) is a);
+}
 static int run_gcuse(const int* ops, int n) {
   volatile var slot = NULL;           /* a stack root */
   int have_tls = 0, serial = 0;
@@ -255,6 +264,7 @@ static int run_gcuse(const int* ops, int n) {
     case 5: if (!gc_rootobj) gc_rootobj = new_root(Int, $I(500 + serial++)); break;
     case 6: if (gc_rootobj) { del_root(gc_rootobj); gc_rootobj = NULL; } break;
     case 4: { var v = new(Int, $I(7 + serial++)); var a = new(Array, Ref, v); slot = a; break; }   /* reachable only through a container */
+    case 7: T_u(gc_ring(3 + serial++)); break;
     }
     T_mark("gcuse");
     if (slot) { if (type_of((var)slot) is Int) T_u((uint64_t)c_int((var)slot)); else { T_u((uint64_t)c_int(deref(get((var)slot, $I(0))))); } }
@@ -334,7 +344,7 @@ struct domain { const char* name; int nops; int depth; int fixedlen; };
 static struct domain DOM[] = {
   { "array", 16, 4, 0 }, { "list", 16, 4, 0 }, { "table", 14, 4, 0 }, { "tree", 14, 4, 0 }, { "string", 10, 4, 0 },
   { "exc", 3, 5, 1 }, { "view", 6, 4, 1 },
-  { "gcuse", 7, 4, 0 }, { "strarray", 8, 4, 0 }, { "strlist", 8, 4, 0 }, { "strtable", 8, 4, 0 },
+  { "gcuse", 8, 4, 0 }, { "strarray", 8, 4, 0 }, { "strlist", 8, 4, 0 }, { "strtable", 8, 4, 0 },
 };
 
 static int run_prog(int d, const int* ops, int n) {
